@@ -156,7 +156,16 @@ fn gen_buffer(rng: &mut Rng, idx: u64) -> Vec<u8> {
 fn gen_req(rng: &mut Rng, rem_words: usize) -> Req {
     match rng.below(20) {
         0..=3 => Req::Word,
-        4 => Req::Words(rng.below(5)),
+        4 => Req::Words(match rng.below(12) {
+            0 => 1usize << 62,
+            1 => (1usize << 62) + rng.below(4),
+            2 => (1usize << 63) + rng.below(3),
+            3 => usize::MAX - rng.below(3),
+            4 => (1usize << 32) + rng.below(3),
+            5 => u32::MAX as usize,
+            6 => rem_words + rng.below(3),
+            _ => rng.below(5),
+        }),
         5..=7 => Req::Str,
         8 => Req::Bit32,
         9 => Req::Bit64,
@@ -570,6 +579,18 @@ pub fn run(cfg: &Cfg, rep: &mut Report) {
                 directed.push((b, vec![Req::Word, Req::SetLimit(lim), Req::Str, Req::Str, Req::Bit64]));
             }
         }
+    }
+    // very long strings (the 64 KiB boundary), with and without limits
+    for len in [65_531usize, 65_535, 65_536, 65_537, 70_001, 262_144] {
+        let mut b = vec![b'q'; len];
+        b.extend_from_slice(&[0, 0, 0, 0, 1, 2, 3, 4]);
+        while b.len() % 4 != 0 {
+            b.push(0);
+        }
+        directed.push((b.clone(), vec![Req::Str, Req::Offset, Req::Word]));
+        directed.push((b.clone(), vec![Req::SetLimit(len / 4 + 1), Req::Str, Req::LimitReached, Req::ClearLimit, Req::Word]));
+        directed.push((b.clone(), vec![Req::SetLimit(len / 4), Req::Str, Req::ClearLimit, Req::Str]));
+        directed.push((b, vec![Req::SetLimit(usize::MAX), Req::Str, Req::Word]));
     }
     let directed_ref = &directed;
     run_stage(cfg, rep, "directed", directed.len() as u64, |idx, _rng, r| {
